@@ -418,7 +418,60 @@ class ModelStream
 // A minimal model that holds one primitive (with its accumulated transform into the
 // unit's frame) inside a large spherical global unit with a background fill; used to
 // attribute a crash or a wrong location to a primitive on its own.
-gb::Model isolate_primitive(gb::PrimRef const& pr, gb::Model const& orig, bool in_union = false)
+// True if the rotation part is neither the identity nor a signed axis permutation
+bool is_general_rotation(gb::Xf const& x)
+{
+    for (int i = 0; i < 3; ++i)
+        for (int j = 0; j < 3; ++j)
+        {
+            double a = std::fabs(x.R[i][j]);
+            if (a > 1e-14 && std::fabs(a - 1) > 1e-14)
+                return true;
+        }
+    return false;
+}
+
+// Site name of a primitive that is located wrongly ON ITS OWN: its kind, unless its
+// parameters fall into a documented input class of a known defect that is independent of
+// the kind.  (Naming only; the verdict was already made against the analytic oracle.)
+//  * rotated-coaxial-quadrics: a body of revolution with two coaxial curved surfaces under a
+//    general rotation becomes two GeneralQuadrics that differ only in the constant term
+//    (t.t - r^2); SoftSurfaceEqual compares that term with the LENGTH tolerance
+//    |r1^2 - r2^2| < max(abs, rel*|c|), so radii many tolerances apart are merged.
+std::string class_site(gb::PrimRef const& pr, gb::Model const& m)
+{
+    gb::Prim const& p = *pr.prim;
+    //  * ellipsoid-small-radii: the quadric of an ellipsoid has coefficients ~ r^4; the
+    //    simplifier snaps coefficient differences and rotation cross terms (size up to
+    //    D = (rmax^2 - rmin^2) rmax^2) to zero when they are below the LENGTH tolerance, which
+    //    moves the surface by ~ tol / (4 r^3) >> tol.  Besides absolutely small semi-axes
+    //    (the generator's class, r < 0.1) this hits nearly spherical ellipsoids whose D is
+    //    within ~an order of magnitude of the tolerance.
+    if (auto const* ell = dynamic_cast<gb::PEllipsoid const*>(&p))
+    {
+        double rmin = std::min({ell->r[0], ell->r[1], ell->r[2]});
+        double rmax = std::max({ell->r[0], ell->r[1], ell->r[2]});
+        double D = (rmax * rmax - rmin * rmin) * rmax * rmax;
+        if (is_general_rotation(pr.to_frame) && D < 20 * m.tol.abs)
+            return "ellipsoid-small-radii";
+    }
+    if (std::string(p.family()) == "revolution" && is_general_rotation(pr.to_frame))
+    {
+        double rmax = 0;
+        for (double r : p.coaxial_radii())
+            rmax = std::max(rmax, r);
+        double c = gb::dot(pr.to_frame.t, pr.to_frame.t) + rmax * rmax;
+        double bound = std::max(m.tol.abs, m.tol.rel * c);
+        if (p.coaxial_r2_gap() < 2 * bound)
+            return "rotated-coaxial-quadrics";
+    }
+    return p.kind;
+}
+
+// probe/half: if given, the material is (box of half-width `half` around `probe`) minus the
+// primitive instead of the primitive itself
+gb::Model isolate_primitive(gb::PrimRef const& pr, gb::Model const& orig, bool in_union = false,
+                            Vec3 const* probe = nullptr, double half = 0)
 {
     gb::Model m;
     m.tol = orig.tol;
@@ -449,6 +502,16 @@ gb::Model isolate_primitive(gb::PrimRef const& pr, gb::Model const& orig, bool i
         if (x.kind == gb::XfKind::none)
             x.kind = gb::XfKind::rotgen;
         mat.solid = std::make_shared<gb::NTransformed>(prim, x);
+    }
+    if (probe)
+    {
+        auto box = std::make_shared<gb::PBox>("probebox", Vec3{{half, half, half}});
+        gb::Xf bx;
+        bx.kind = gb::XfKind::translation;
+        bx.t = *probe;
+        auto j = std::make_shared<gb::NJoin>("iso_sub", gb::NJoin::Op::sub);
+        j->kids = {std::make_shared<gb::NTransformed>(box, bx), mat.solid};
+        mat.solid = j;
     }
     if (in_union)
     {
@@ -770,8 +833,18 @@ struct Pending
 // probed at the same local points.  Primitives that are located wrongly on their own are
 // the site of the violation; if none is, the defect needs the composition
 // ("composite/<kind of the nearest primitive>").
-std::vector<std::string> attribute_sites(gb::Model const& m, std::vector<Pending> const& pend)
+std::vector<std::string> attribute_sites(gb::Model const& m, std::vector<Pending> const& pend,
+                                         std::vector<json>* attributed = nullptr)
 {
+    // per probe: site -> description of the primitive and context that reproduced it
+    std::vector<std::map<std::string, json>> descs(pend.size());
+    auto describe_culprit = [](gb::PrimRef const& pr, char const* context) {
+        json j;
+        j["context"] = context;
+        j["primitive"] = pr.prim->describe();
+        j["primitive_to_unit_frame"] = pr.to_frame.to_json();
+        return j;
+    };
     // per probe: culprit kind -> its own distance to the probe (nearest one names the site)
     std::vector<std::map<std::string, double>> culprits(pend.size());
     std::map<gb::UnitModel const*, std::vector<std::size_t>> by_unit;
@@ -787,6 +860,7 @@ std::vector<std::string> attribute_sites(gb::Model const& m, std::vector<Pending
         for (auto const& pr : u->prims)
             if (seen.insert(pr.prim).second)
                 prims.push_back(pr);
+        std::vector<gb::PrimRef> const base_prims = prims;
         std::vector<gb::Model> iso;
         for (auto const& pr : prims)
             iso.push_back(isolate_primitive(pr, m, false));
@@ -827,14 +901,168 @@ std::vector<std::string> attribute_sites(gb::Model const& m, std::vector<Pending
                 if (!same)
                 {
                     double own = prims[k].prim->eval(prims[k].to_frame.down(q)).prox;
-                    auto it = culprits[i].find(prims[k].prim->kind);
+                    std::string site = class_site(prims[k], m);
+                    auto it = culprits[i].find(site);
                     if (it == culprits[i].end() || own < it->second)
-                        culprits[i][prims[k].prim->kind] = own;
+                    {
+                        culprits[i][site] = own;
+                        descs[i][site] = describe_culprit(prims[k], k < base_prims.size() ? "alone" : "in a union with a far sphere");
+                    }
+                }
+            }
+        }
+
+        // Third context, for probes not explained so far: a small box around the probe
+        // minus the primitive (every primitive that is used negated somewhere in this unit
+        // and does not contain the probe).  This is the smallest input on which a wrong
+        // *interior* bounding box of the subtracted region shows (the difference is
+        // declared empty and dropped from the enclosing union).
+        std::set<std::size_t> culprit_prims;
+        // pass 0: the first 12 unexplained probes against every negated primitive;
+        // pass 1: the remaining ones against the primitives found guilty in pass 0 (all
+        // negated primitives if none was), at most 200 probes
+        for (int pass = 0; pass < 2; ++pass)
+        {
+            std::vector<gb::Model> sub_models;
+            std::vector<std::pair<std::size_t, std::size_t>> sub_index;  // (probe, primitive)
+            std::vector<Vec3> sub_point;  // test point (the probe, or displaced from it)
+            std::size_t n_sub_probes = 0;
+            for (std::size_t i : kv.second)
+            {
+                if (!culprits[i].empty() || n_sub_probes >= (pass == 0 ? 12u : 200u))
+                    continue;
+                ++n_sub_probes;
+                Vec3 const& q = pend[i].exp.local;
+                for (std::size_t k = 0; k < base_prims.size(); ++k)
+                {
+                    auto const& pr = base_prims[k];
+                    if (!(pr.prim->ctx_mask & gb::ctx_neg))
+                        continue;
+                    if (pass == 1 && !culprit_prims.empty() && !culprit_prims.count(k))
+                        continue;
+                    gb::Ev e = pr.prim->eval(pr.to_frame.down(q));
+                    if (e.in)
+                        continue;
+                    // box corners stay clear of the primitive (h sqrt(3) < prox); the test
+                    // point stays >= 15 tol from the box faces (judgeable).  A probe too
+                    // close to the primitive for that is replaced by points displaced
+                    // away from the primitive's surface (40, 160, 640 tol).
+                    std::vector<Vec3> cand;
+                    if (std::min(0.4 * e.prox, 0.05 * pr.prim->rad) > 15 * m.tol_eff)
+                        cand.push_back(q);
+                    else
+                    {
+                        Vec3 ql = pr.to_frame.down(q);
+                        double eps = 0.1 * e.prox;
+                        Vec3 g{{0, 0, 0}};
+                        for (int ax = 0; ax < 3; ++ax)
+                        {
+                            Vec3 a = ql, b = ql;
+                            a[ax] += eps;
+                            b[ax] -= eps;
+                            g[ax] = pr.prim->eval(a).prox - pr.prim->eval(b).prox;
+                        }
+                        double gn = gb::norm(g);
+                        if (gn > 0)
+                            for (double d : {40.0, 160.0, 640.0})
+                            {
+                                Vec3 c = ql;
+                                for (int ax = 0; ax < 3; ++ax)
+                                    c[ax] += d * m.tol_eff * g[ax] / gn;
+                                gb::Ev ec = pr.prim->eval(c);
+                                if (!ec.in && std::min(0.4 * ec.prox, 0.05 * pr.prim->rad) > 15 * m.tol_eff)
+                                    cand.push_back(pr.to_frame.up(c));
+                            }
+                    }
+                    for (Vec3 const& c : cand)
+                    {
+                        double h = std::min(0.4 * pr.prim->eval(pr.to_frame.down(c)).prox, 0.05 * pr.prim->rad);
+                        sub_models.push_back(isolate_primitive(pr, m, true, &c, h));
+                        sub_index.push_back({i, k});
+                        sub_point.push_back(c);
+                    }
+                }
+            }
+            if (sub_models.empty())
+                continue;
+            auto sst = preflight_batch(sub_models.size(), [&](std::size_t j) { build_everything(sub_models[j]); });
+            for (std::size_t j = 0; j < sub_models.size(); ++j)
+            {
+                if (sst[j] != Flight::ok)
+                    continue;
+                BuildResult br = build_input(sub_models[j], "C09");
+                if (!br.input)
+                    continue;
+                std::shared_ptr<OrangeParams const> params;
+                try
+                {
+                    params = std::make_shared<OrangeParams>(std::move(*br.input));
+                }
+                catch (std::exception const&)
+                {
+                    continue;
+                }
+                Locator loc(params);
+                std::size_t i = sub_index[j].first;
+                auto const& pr = base_prims[sub_index[j].second];
+                Vec3 const& q = sub_point[j];
+                gb::Located e = gb::locate(sub_models[j], q, 10);
+                if (e.status != gb::Located::ok)
+                    continue;
+                Observed o = loc(q);
+                bool same = !o.failed && o.label.name == e.label.name && o.label.ext == e.label.ext;
+                if (!same)
+                {
+                    culprit_prims.insert(sub_index[j].second);
+                    // input classes of the known interior-bounding-box defects; anything
+                    // else is named by the kind of the subtracted primitive
+                    std::string fam = pr.prim->family();
+                    std::string site = std::string("subtracted-")
+                                       + (fam == "sphere"                      ? std::string("sphere")
+                                          : is_general_rotation(pr.to_frame) ? std::string("rotated-region")
+                                          : fam == "prism"                    ? std::string("prism")
+                                                                              : pr.prim->kind);
+                    double own = pr.prim->eval(pr.to_frame.down(q)).prox;
+                    auto it = culprits[i].find(site);
+                    if (it == culprits[i].end() || own < it->second)
+                    {
+                        culprits[i][site] = own;
+                        descs[i][site] = describe_culprit(pr, "subtracted from a small box around the probe (in a union with a far sphere)");
+                    }
                 }
             }
         }
     }
+    // A region dropped from a volume (its bounding box or logic is wrong as a whole) makes
+    // every probe of that volume fail; probes that could not be re-tested themselves (too
+    // close to the culprit for a probe box) inherit the site found for the same expected
+    // volume and symptom in this model.
+    {
+        std::map<std::string, std::string> by_volume;
+        for (std::size_t i = 0; i < pend.size(); ++i)
+            if (!culprits[i].empty())
+            {
+                auto best = culprits[i].begin();
+                for (auto it = culprits[i].begin(); it != culprits[i].end(); ++it)
+                    if (it->second < best->second)
+                        best = it;
+                if (best->first.rfind("subtracted-", 0) == 0)
+                    by_volume.emplace(lab_str(pend[i].exp.label) + "|" + pend[i].symptom, best->first);
+            }
+        for (std::size_t i = 0; i < pend.size(); ++i)
+            if (culprits[i].empty())
+            {
+                auto it = by_volume.find(lab_str(pend[i].exp.label) + "|" + pend[i].symptom);
+                if (it != by_volume.end())
+                {
+                    culprits[i][it->second] = 0;
+                    descs[i][it->second] = json{{"context", "inherited from another probe of the same expected volume"}};
+                }
+            }
+    }
     std::vector<std::string> sites(pend.size());
+    if (attributed)
+        attributed->assign(pend.size(), json());
     for (std::size_t i = 0; i < pend.size(); ++i)
     {
         if (!culprits[i].empty())
@@ -844,6 +1072,8 @@ std::vector<std::string> attribute_sites(gb::Model const& m, std::vector<Pending
                 if (it->second < best->second)
                     best = it;
             sites[i] = best->first;
+            if (attributed)
+                (*attributed)[i] = descs[i][best->first];
         }
         else
         {
@@ -1083,7 +1313,8 @@ int run_c09(verif::Args const& args)
         sw.lap("probe");
         if (!pending.empty())
         {
-            auto sites = attribute_sites(m, pending);
+            std::vector<json> attributed;
+            auto sites = attribute_sites(m, pending, &attributed);
             std::map<std::string, int> per_key;
             for (std::size_t i = 0; i < pending.size(); ++i)
             {
@@ -1108,6 +1339,7 @@ int run_c09(verif::Args const& args)
                     w["tol"] = {{"rel", m.tol.rel}, {"abs", m.tol.abs}};
                     if (pd.exp.nearest)
                         w["nearest_primitive"] = pd.exp.nearest->describe();
+                    w["attributed_to"] = attributed[i];
                     w["model"] = m.global->describe();
                 }
                 rep.violation(key, pd.detail, std::move(w));
